@@ -241,3 +241,10 @@ m("c14-quadratic-duplicate-key-scan", "C14", 1, [("src/gm2_slha_io.cpp",
    "         // only the last entry with a given key counts: skip this one if the key appears again below\n         bool overridden = false;\n         for (const auto& other : block) {\n            if (&other > &line && other.is_data_line() && other.size() >= 2 && convert_to<int>(other[0]) == key) { overridden = true; }\n         }\n"
    "         if (!overridden) { processor(key, value); }\n      }\n   }\n}")],
   "quadratic duplicate-key scan in read_block: a block with thousands of entries (64 KiB of repeated lines) exceeds the time budget by orders of magnitude while every shipped file is as fast as before")
+
+m("c14-buffer-sized-from-stream-length", "C14", 1, [("src/gm2_slha_io.cpp",
+   "void GM2_slha_io::read_from_stream(std::istream& istr)\n{\n   data.read(istr);\n}",
+   "void GM2_slha_io::read_from_stream(std::istream& istr)\n{\n   // read the whole stream at once into a buffer of the right size\n   istr.seekg(0, std::ios::end);\n   const std::streamoff size = istr.tellg();\n   istr.seekg(0, std::ios::beg);\n"
+   "   std::string content(static_cast<std::size_t>(size), '\\0');\n   istr.read(&content[0], size);\n   std::istringstream stream(content);\n   data.read(stream);\n}"),
+  ("src/gm2_slha_io.cpp", "#include <fstream>", "#include <fstream>\n#include <sstream>")],
+  "stream length taken with seekg/tellg: fine for string streams (the unit tests) and for a regular file on stdin, but a pipe cannot seek: tellg() = -1, std::string(size_t(-1)) throws std::length_error out of main()")
